@@ -219,6 +219,7 @@ class AudioSim(AoefSim):
             "resample": self.do_derive,
             "spectrogram": self.do_derive,
             "scribble": self.do_scribble,
+            "chain": self.do_chain,
             "recheck": self.do_recheck,
         }.get(kind)
         if handler is None:
@@ -694,7 +695,7 @@ class AudioSim(AoefSim):
         reply = node.call("a_again", handle=op["src"], _env=self.env_audio(None))
         if reply["outcome"] != "value":
             return self.record(op, "skipped")
-        entry = reply["coords"]["time"]
+        entry = reply["coords"].get("time") or {"n": 0, "step": None}
         fp = self._fingerprint(reply)
         self.record(op, "value", same=(fp == src.get("fp")))
         self.trace.append(("recheck", src["kind"], fp == src.get("fp")))
@@ -715,6 +716,45 @@ class AudioSim(AoefSim):
         return sha(jdump([entry.get("step"), entry.get("values"),
                           reply.get("data") if "data" in reply else None,
                           reply.get("shape")]))
+
+    def do_chain(self, op):
+        """A batch job: clip -> spectrogram for several windows, nothing kept
+        between iterations. Each spectrogram's time axis must start where its
+        own clip starts."""
+        rec = self.recs.get(op["r"])
+        if rec is None:
+            return self.record(op, "skipped")
+        spec = rec["spec"]
+        sr = spec["samplerate"]
+        if sr < 1 or self.on_disk(rec["file"]) is None:
+            return self.record(op, "skipped")
+        node = self.node(op["node"])
+        reply = node.call(
+            "a_chain", recording=spec, windows=op["windows"],
+            window_size=op["window_samples"] / sr,
+            hop_size=op["hop_samples"] / sr,
+            audio_dir=rec["audio_dir"], _env=self.env_audio(None),
+        )
+        if reply["outcome"] != "value":
+            return self.record(op, reply["outcome"])
+        outcomes = []
+        for item in reply["items"]:
+            outcomes.append(item["outcome"])
+            if item["outcome"] != "value":
+                continue
+            wav_t = item["wav"]["coords"].get("time")
+            spec_t = item["spec"]["coords"].get("time")
+            if not wav_t or not spec_t or not wav_t["n"] or not spec_t["n"]:
+                continue
+            first = float(_decode(wav_t["values"])[0])
+            self.checked_arrays += 1
+            self.probes.hit("C15:batch-clip-then-spectrogram-checked")
+            self.axis("spectrogram", "time", spec_t, first)
+            if item["spec"]["coords"].get("frequency"):
+                self.axis("spectrogram", "frequency",
+                          item["spec"]["coords"]["frequency"], 0.0)
+        self.record(op, jdump(outcomes))
+        self.trace.append(("chain", tuple(outcomes)))
 
     def do_scribble(self, op):
         """A caller normalises / overwrites in place what an earlier call
@@ -745,6 +785,11 @@ class AudioSim(AoefSim):
         if kind == "resample" and (
             src["n"] * op["target"] * src["step"] > 150_000
             or src["n"] * op["target"] * src["step"] * src.get("width", 1) > 1_500_000
+        ):
+            return self.record(op, "skipped-too-large")
+        if kind == "spectrogram" and (
+            src["n"] / max(op["hop_samples"], 1e-9)
+            * (op["window_samples"] / 2 + 1) * src.get("width", 4) > 3_000_000
         ):
             return self.record(op, "skipped-too-large")
         if kind == "spectrogram" and src.get("spec_like"):
@@ -787,9 +832,9 @@ class AudioSim(AoefSim):
             self.probes.hit("C15:spectrogram-fractional-window-or-hop")
         if kind == "spectrogram" and op["window_samples"] >= 1024:
             self.probes.hit("C15:spectrogram-window>=1024-samples")
-        tentry = reply["coords"]["time"]
+        tentry = reply["coords"].get("time") or {"n": 0, "step": None}
         self.axis(kind, "time", tentry, src["first"])
-        if kind == "spectrogram":
+        if kind == "spectrogram" and reply["coords"].get("frequency"):
             self.axis(kind, "frequency", reply["coords"]["frequency"], 0.0)
         if tentry["n"] and "values" in tentry and tentry["step"]:
             self.arrays[op["h"]] = {
@@ -952,14 +997,17 @@ def gen_ops(rng, cfg, seed_tag):
         else:
             if rng.random() < 0.5:
                 # any whole number of samples, not only the round ones
-                w = rng.randint(3, max(3, min(max_window, 3000)))
+                w = rng.randint(3, max(3, min(max_window, 10000)))
             else:
                 w = rng.choice([w for w in [4, 8, 16, 32, 64, 100, 256, 37, 101, 113, 211,
-                                            1024, 1102, 2205, 1315, 2048]
+                                            1024, 1102, 2205, 1315, 2048, 4096,
+                                            4101, 8192]
                                 if w <= max_window] or [4])
             whole = rng.random() < 0.5
             window = w if whole else w + rng.choice([0.5, 0.25, 0.9, 0.001])
             hop = rng.choice([1, 2, w // 4 or 1, w // 2, w])
+            if w > 512:
+                hop = max(hop, w // 8)
             if not whole or rng.random() < 0.3:
                 hop = hop + rng.choice([0.5, 0.3, 0.75, 0.01])
             spec_like.add(hh)
@@ -979,7 +1027,8 @@ def gen_ops(rng, cfg, seed_tag):
 
     while len(ops) < cfg["max_ops"]:
         pat = rng.choice(["basic", "basic", "eof", "grow", "derived", "fault",
-                          "restart", "tiny", "tear", "scribble", "tiles"])
+                          "restart", "tiny", "tear", "scribble", "tiles",
+                          "chain"])
         if not files or rng.random() < 0.25:
             create()
         f = rng.choice(sorted(files))
@@ -1014,7 +1063,7 @@ def gen_ops(rng, cfg, seed_tag):
             frames = files[f2][1]
             # a clip past the end of a short file is zero-filled to its full
             # length, so long windows do not need long files
-            length = rng.choice([24, 60, 150, 400, 400, 2500, 6000])
+            length = rng.choice([24, 60, 150, 400, 400, 2500, 6000, 20000])
             if rng.random() < 0.7:
                 # a window of known length that often crosses the end of file
                 k0 = max(0, frames - rng.randint(0, length + length // 2))
@@ -1064,6 +1113,17 @@ def gen_ops(rng, cfg, seed_tag):
                             "node": n, "h": hh, "fault": None, "audio_as": "str"})
                 arrays.append((hh, n))
                 t = t + step
+        elif pat == "chain":
+            f2, rec_sr = recs[r]
+            frames = max(files[f2][1], 64)
+            length = rng.choice([64, 200, 1000])
+            w = rng.choice([8, 16, 32, 37])
+            windows = []
+            for _ in range(rng.randint(3, 8)):
+                k0 = rng.randint(0, frames)
+                windows.append([k0 / rec_sr, (k0 + length) / rec_sr])
+            ops.append({"op": "chain", "r": r, "node": node(), "windows": windows,
+                        "window_samples": w, "hop_samples": rng.choice([w // 2, w // 4 or 1])})
         elif pat == "scribble":
             # load, modify the returned array in place, load the same again
             n = node()
@@ -1148,7 +1208,12 @@ ASSUMPTIONS = [
 SEAM_PROBES = {
     "C15": ["sf_open_error", "sf_read_error", "sf_open_crash", "sf_read_crash",
             "C15:returned-array-modified-in-place",
-            "C15:clip-vs-recording-compared"],
+            "C15:clip-vs-recording-compared",
+            # counted only when the call returns an array
+            "C15:spectrogram-fractional-window-or-hop",
+            "C15:spectrogram-window>=1024-samples",
+            "C15:resample-checked", "C15:spectrogram-checked",
+            "C15:load_recording-checked"],
 }
 CORE_PROBES = {
     "C15": [
